@@ -102,27 +102,50 @@ theorem armed_removePoliciesWN (e : Enf) (sec pt : String) (rules : List Rule) (
   simp only [Bool.not_false, if_true]
   exact ⟨sameCore_persist hp, fun _ _ _ => trivial⟩
 
+/-- since the repair of D12/D18 the update calls ask `Enf.updatable` before the adapter is touched: a
+    refused update reports `.ok false` and never reaches the (armed) adapter call, so the error is
+    reported only when the guard passes -/
 theorem armed_updatePolicyWN (e : Enf) (sec pt : String) (old new : Rule) (ha : Armed e) :
-    SameCore e (e.updatePolicyWN sec pt old new).1 ∧ (e.updatePolicyWN sec pt old new).2 = .err false := by
+    SameCore e (e.updatePolicyWN sec pt old new).1 ∧
+    (∀ s, e.getStore sec pt = some s → Enf.updatable s [old] [new] = true →
+      (e.updatePolicyWN sec pt old new).2 = .err false) := by
   unfold Enf.updatePolicyWN
   split
+  · exact ⟨.refl e, fun _ _ _ => rfl⟩
+  rename_i s0 hs0
+  split
+  · rename_i hh
+    refine ⟨.refl e, fun s hs hu => ?_⟩
+    rw [hs0] at hs; cases hs
+    simp [hu] at hh
+  split
   rename_i e1 okA hp
   have := ha.persist hp
   subst this
   simp only [Bool.not_false, if_true]
-  exact ⟨sameCore_persist hp, trivial⟩
+  exact ⟨sameCore_persist hp, fun _ _ _ => trivial⟩
 
 theorem armed_updatePoliciesWN (e : Enf) (sec pt : String) (olds news : List Rule) (ha : Armed e) :
-    SameCore e (e.updatePoliciesWN sec pt olds news).1 ∧ (e.updatePoliciesWN sec pt olds news).2 = .err false := by
+    SameCore e (e.updatePoliciesWN sec pt olds news).1 ∧
+    (∀ s, e.getStore sec pt = some s → Enf.updatable s olds news = true →
+      (e.updatePoliciesWN sec pt olds news).2 = .err false) := by
   unfold Enf.updatePoliciesWN
   split
-  · exact ⟨.refl e, rfl⟩
+  · exact ⟨.refl e, fun _ _ _ => rfl⟩
+  split
+  · exact ⟨.refl e, fun _ _ _ => rfl⟩
+  rename_i s0 hs0
+  split
+  · rename_i hh
+    refine ⟨.refl e, fun s hs hu => ?_⟩
+    rw [hs0] at hs; cases hs
+    simp [hu] at hh
   split
   rename_i e1 okA hp
   have := ha.persist hp
   subst this
   simp only [Bool.not_false, if_true]
-  exact ⟨sameCore_persist hp, trivial⟩
+  exact ⟨sameCore_persist hp, fun _ _ _ => trivial⟩
 
 theorem armed_removeFilteredWN (e : Enf) (sec pt : String) (fi : Nat) (vals : List String) (ha : Armed e) :
     ∃ r, e.removeFilteredWN sec pt fi vals = some r ∧ SameCore e r.1 ∧ r.2 = .err false := by
@@ -208,6 +231,10 @@ theorem err_updatePolicyWN (e : Enf) (sec pt : String) (old new : Rule) (hwf : e
   have ho : plainRule n old = true := hpl old (by simp [StoreOp.rules])
   have hw : plainRule n new = true := hpl new (by simp [StoreOp.rules])
   unfold Enf.updatePolicyWN
+  split
+  · exact errOK_err (.refl e)
+  split
+  · exact errOK_ok _ _ _
   split
   rename_i e1 okA hp
   have sc := sameCore_persist hp
@@ -344,6 +371,10 @@ theorem err_updatePoliciesWN (e : Enf) (sec pt : String) (olds news : List Rule)
   unfold Enf.updatePoliciesWN
   split
   · exact errOK_err (.refl e)
+  split
+  · exact errOK_err (.refl e)
+  split
+  · exact errOK_ok _ _ _
   split
   rename_i e1 okA hp
   have sc := sameCore_persist hp
@@ -537,7 +568,9 @@ theorem armed_fails (e : Enf) (op : MOp) (ha : Armed e) (sec pt : String) (sop :
       | .add _ _ r => (e.getStore sec pt).map (fun s => s.has r) = some false
       | .addMany _ _ ex rs => ex = true ∨ (e.getStore sec pt).map (fun s => rs.any s.has) = some false
       | .removeMany _ _ rs => (e.getStore sec pt).map (fun s => rs.any s.has) = some true
-      | .updateMany _ _ os ns => os.length = ns.length
+      | .update _ _ o n => (e.getStore sec pt).map (fun s => Enf.updatable s [o] [n]) = some true
+      | .updateMany _ _ os ns => os.length = ns.length ∧
+          (e.getStore sec pt).map (fun s => Enf.updatable s os ns) = some true
       | .removeFiltered _ _ _ vals => vals ≠ []
       | _ => True) :
     ∃ e', e.applyM op = some (e', .err false) := by
@@ -565,10 +598,16 @@ theorem armed_fails (e : Enf) (op : MOp) (ha : Armed e) (sec pt : String) (sop :
     have hr := (armed_removePoliciesWN e sec' pt' rs ha).2 s hs hreach
     exact ⟨_, by simp only [Enf.applyM, Enf.removePolicies]; rw [withNotify_err' _ _ _ hr]⟩
   | update sec' pt' o n =>
-    have hr := (armed_updatePolicyWN e sec' pt' o n ha).2
+    simp only [MOp.storeOp, Option.some.injEq, Prod.mk.injEq] at hop
+    obtain ⟨rfl, rfl, _⟩ := hop
+    simp only [hs, Option.map_some, Option.some.injEq] at hreach
+    have hr := (armed_updatePolicyWN e sec' pt' o n ha).2 s hs hreach
     exact ⟨_, by simp only [Enf.applyM, Enf.updatePolicy]; rw [withNotify_err' _ _ _ hr]⟩
   | updateMany sec' pt' os ns =>
-    have hr := (armed_updatePoliciesWN e sec' pt' os ns ha).2
+    simp only [MOp.storeOp, Option.some.injEq, Prod.mk.injEq] at hop
+    obtain ⟨rfl, rfl, _⟩ := hop
+    simp only [hs, Option.map_some, Option.some.injEq] at hreach
+    have hr := (armed_updatePoliciesWN e sec' pt' os ns ha).2 s hs hreach.2
     exact ⟨_, by simp only [Enf.applyM, Enf.updatePolicies]; rw [withNotify_err' _ _ _ hr]⟩
   | removeFiltered sec' pt' fi vals =>
     obtain ⟨r, hr, _, hres⟩ := armed_removeFilteredWN e sec' pt' fi vals ha
